@@ -177,6 +177,50 @@ mut("c20_strip_trailing", "C20", REL,
     "            lines[i] = '\"'.join(parts)\n            if lines[i].endswith('  \\n'):\n                lines[i] = lines[i].rstrip() + '\\n'\n",
     "strips trailing blanks of the header line when it ends in two spaces")
 
+# ---------------- C17 ----------------
+mut("c17_stdin_strip", "C17", CLI,
+    "        data = sys.stdin.buffer.read()\n", "        data = sys.stdin.buffer.read().strip()\n",
+    "whitespace stripped from stdin")
+mut("c17_stdin_rstrip_newline", "C17", CLI,
+    "        data = sys.stdin.buffer.read()\n", "        data = sys.stdin.buffer.read()\n        if data.endswith(b\"\\n\"):\n            data = data[:-1]\n",
+    "one trailing newline dropped from stdin")
+mut("c17_stdin_read1", "C17", CLI,
+    "        data = sys.stdin.buffer.read()\n", "        data = sys.stdin.buffer.read1()\n",
+    "single read() system call: short reads truncate the data")
+mut("c17_stdin_readline", "C17", CLI,
+    "        data = sys.stdin.buffer.read()\n", "        data = sys.stdin.buffer.readline()\n",
+    "only the first line of stdin is encoded")
+mut("c17_stdin_text_mode", "C17", CLI,
+    "        data = sys.stdin.buffer.read()\n", "        try:\n            data = sys.stdin.read().encode()\n        except UnicodeDecodeError:\n            data = sys.stdin.buffer.read()\n",
+    "stdin read in text mode first (newline translation, partial consumption on decode errors)")
+mut("c17_levels_QH_swapped", "C17", CLI,
+    '    "Q": qrcode.ERROR_CORRECT_Q,\n    "H": qrcode.ERROR_CORRECT_H,\n',
+    '    "Q": qrcode.ERROR_CORRECT_H,\n    "H": qrcode.ERROR_CORRECT_Q,\n',
+    "Q and H swapped in the option table")
+mut("c17_optimize_ignored", "C17", CLI,
+    "        qr.add_data(data, optimize=opts.optimize)\n", "        qr.add_data(data, optimize=opts.optimize or 20)\n",
+    "--optimize 0 treated as absent")
+mut("c17_output_ignores_factory", "C17", CLI,
+    "    if opts.output:\n        img = qr.make_image(**kwargs)\n",
+    "    if opts.output:\n        if opts.factory in ('png', 'pymaging'):\n            qr.image_factory = None\n        img = qr.make_image(**kwargs)\n",
+    "--output with --factory png silently uses the default (Pillow) factory")
+mut("c17_arg_errors_replace", "C17", CLI,
+    '        data = data.encode(errors="surrogateescape")\n', '        data = data.encode(errors="replace")\n',
+    "undecodable argv bytes replaced by '?'")
+mut("c17_drawer_only_stdout", "C17", CLI,
+    "    if opts.output:\n        img = qr.make_image(**kwargs)\n", "    if opts.output:\n        img = qr.make_image()\n",
+    "partially reverts the fix: --output ignores a valid drawer")
+mut("c17_glog_zero", "C17", "qrcode/base.py",
+    "        if self[0] == 0:\n            # Only the zero polynomial keeps a zero leading term (see\n            # __init__), and its remainder is zero.\n            return self\n", "",
+    "reverts the fix: all-zero RS block crashes the command")
+mut("c17_unknown_drawer_falls_back", "C17", CLI,
+    "        if opts.factory_drawer not in aliases:\n            raise_error(",
+    "        if opts.factory_drawer not in aliases:\n            opts.factory_drawer = next(iter(aliases))\n        if opts.factory_drawer not in aliases:\n            raise_error(",
+    "unknown drawer silently replaced by the first alias")
+mut("c17_ascii_border", "C17", CLI,
+    "            qr.print_ascii(tty=not opts.ascii)\n", "            qr.border = 4 if not opts.ascii else 2\n            qr.print_ascii(tty=not opts.ascii)\n",
+    "--ascii art printed with a 2-module quiet zone")
+
 
 def main():
     os.makedirs(OUT, exist_ok=True)
